@@ -149,6 +149,15 @@ class Analyzer3:
                 elif ix['d'] in st.ints and 0 <= st.ints[ix['d']] <= nz:
                     ok = True
                     why = 'index == %d <= %d' % (st.ints[ix['d']], nz)
+            if not ok and ix.get('k') == 'ref':
+                # an index that grows by amounts measured through another pointer into the same string (position += 1 + token_length,
+                # token = &text[position + 1]): the relation between the two views of the string is not kept by this analysis
+                grows = [a_ for a_ in self.fn.nodes() if a_.get('k') == 'bin' and a_.get('op') in ('+=',) and
+                         strip_casts(a_['l']).get('k') == 'ref' and strip_casts(a_['l'])['d'] == ix['d'] and const_val(a_['r']) is None]
+                if grows:
+                    self.broken = self.broken or 'BND3: %s: %s is read at index %s, which grows by %s; how that amount relates to the ' \
+                        'string is not kept by this analysis' % (self.fn.where(node), key, ix['n'], expr_str(grows[0]['r'])[:30])
+                    return
             self.site('BND3', node, 'read %s at a variable index' % expr_str(node)[:40], ok, why,
                       'read:%s[%s]' % (key, expr_str(ix)))
 
